@@ -146,6 +146,7 @@ type replica struct {
 	down     bool
 	f        fault
 	unsealed bool // accepted something since the last seal (harness bookkeeping: is a seal worth logging)
+	got      map[int]int // coverage statistics only: bulk -> 1 accepted, 2 accepted and sealed since
 }
 
 type hist struct {
@@ -158,9 +159,11 @@ type hist struct {
 	nd      map[int]int       // documents per bulk
 	decoded map[int]bool
 	probs   []map[string]any
+	infra   string
 	events  int
 	faults  int
-	stats   struct{ acks, fails, searches, partial, errors, lost, dupDeliveries, restarts int }
+	stats   struct{ acks, fails, searches, partial, errors, lost, redeliveries, dupDeliveries, twoShards, restarts int }
+	onShard map[int]int // coverage statistics only: bulk -> bit set of shards that accepted it
 }
 
 type bulkKey struct{}
@@ -266,6 +269,19 @@ func (w *wrap) Bulk(ctx context.Context, in *pb.BulkRequest, _ ...grpc.CallOptio
 		}
 		if err == nil {
 			rp.unsealed = true
+			switch rp.got[b] {
+			case 1:
+				h.stats.redeliveries++
+			case 2:
+				h.stats.dupDeliveries++
+			}
+			if rp.got[b] == 0 {
+				rp.got[b] = 1
+			}
+			if h.onShard[b] != 0 && h.onShard[b]&(1<<w.s) == 0 {
+				h.stats.twoShards++
+			}
+			h.onShard[b] |= 1 << w.s
 			if (b+w.s+2*w.r+h.run)%3 == 0 { // wait for the indexer under the lock: the bulk is visible at once
 				rp.e.WaitIdle()
 				ev.St = 1
@@ -273,6 +289,15 @@ func (w *wrap) Bulk(ctx context.Context, in *pb.BulkRequest, _ ...grpc.CallOptio
 		}
 	}
 	h.log(ev)
+	if ev.Out == "lost" && (b+h.run)%2 == 0 {
+		// seal at once: the re-delivery of this bulk (the client saw an error) will be a second physical copy
+		rp.e.Seal()
+		rp.unsealed = false
+		for x := range rp.got {
+			rp.got[x] = 2
+		}
+		h.log(event{Ev: "seal", S: w.s + 1, R: w.r + 1})
+	}
 	if ev.Out == "ok" {
 		return &emptypb.Empty{}, nil
 	}
@@ -394,6 +419,10 @@ func (h *hist) bulkOp(ing *bulk.Ingestor, b int, rng *rand.Rand) {
 		h.stats.acks++
 		h.log(event{Ev: "back", B: b})
 	} else {
+		if errors.Is(err, context.DeadlineExceeded) || errors.Is(err, bulk.ErrTooManyInflightBulks) {
+			// consts.BulkTimeout (30 s) ran out on an overloaded machine: not a history of the model's scope
+			h.infra = fmt.Sprintf("history %d, bulk %d: %v", h.run, b, err)
+		}
 		h.stats.fails++
 		h.log(event{Ev: "bfail", B: b})
 	}
@@ -561,6 +590,9 @@ func (h *hist) chaosOp(rng *rand.Rand) {
 		if !rp.down && rp.unsealed {
 			rp.e.Seal()
 			rp.unsealed = false
+			for b := range rp.got {
+				rp.got[b] = 2
+			}
 			h.log(event{Ev: "seal", S: s + 1, R: r + 1})
 		}
 		h.mu.Unlock()
@@ -610,7 +642,7 @@ func pause(rng *rand.Rand) {
 func runHistory(run int, work string, mp *mappingprovider.MappingProvider, out *bufio.Writer) (probs []map[string]any, infra string, h *hist) {
 	seed := int64(*fSeed)*1000003 + int64(run)
 	rng := rand.New(rand.NewSource(seed))
-	h = &hist{run: run, w: out, ids: map[seq.ID]doc{}, body: map[doc][]byte{}, nd: map[int]int{}, decoded: map[int]bool{}}
+	h = &hist{run: run, w: out, ids: map[seq.ID]doc{}, body: map[doc][]byte{}, nd: map[int]int{}, decoded: map[int]bool{}, onShard: map[int]int{}}
 	clients := map[string]pb.StoreApiClient{}
 	st := &stores.Stores{}
 	for s := 0; s < NS; s++ {
@@ -625,7 +657,7 @@ func runHistory(run int, work string, mp *mappingprovider.MappingProvider, out *
 			if err != nil {
 				return nil, "cannot open a store: " + err.Error(), h
 			}
-			h.rep[s][r] = &replica{e: e}
+			h.rep[s][r] = &replica{e: e, got: map[int]int{}}
 			host := fmt.Sprintf("s%dr%d", s+1, r+1)
 			hosts = append(hosts, host)
 			clients[host] = &wrap{h: h, s: s, r: r}
@@ -739,8 +771,9 @@ func runHistory(run int, work string, mp *mappingprovider.MappingProvider, out *
 	h.searchOp(sing, 1, 3)
 	h.mu.Lock()
 	probs = h.probs
+	infra = h.infra
 	h.mu.Unlock()
-	return probs, "", h
+	return probs, infra, h
 }
 
 // ---------------------------------------------------------------- child / parent
@@ -795,6 +828,9 @@ func child() {
 		tot["errors"] += h.stats.errors
 		tot["lost"] += h.stats.lost
 		tot["restarts"] += h.stats.restarts
+		tot["redeliveries"] += h.stats.redeliveries
+		tot["dup_deliveries"] += h.stats.dupDeliveries
+		tot["two_shards"] += h.stats.twoShards
 	}
 	fh.Close()
 	m := map[string]any{"summary": true}
